@@ -53,6 +53,7 @@ CONSTANTS Params,        \* parameter settings (tokens)
           Canon(_),      \* canonical representative of a parameter setting among those that learn the same model
                          \* (settings that differ only in `verbose` are equivalent: printing must not change results)
           HasFitTransform, \* TRUE for estimators with fit_transform
+          HasCrossVal,   \* TRUE where scikit-learn's cross_val_score applies (see CrossValidate)
           MaxObjs, MaxHandles
 
 VARIABLES objs, handles, last
@@ -150,6 +151,14 @@ GetMatrix(o) ==
      ELSE UNCHANGED handles /\ last' = <<"NotFitted", o, "GetMatrix">>
   /\ UNCHANGED objs
 
+(* scikit-learn model selection (cross_val_score on the estimator itself for pair classifiers, on a pipeline    *)
+(* estimator -> nearest-neighbour classifier for supervised transformers): the estimator passed in is CLONED for *)
+(* every fold, so the object itself is untouched, and the scores are a function of its parameters and the data   *)
+CrossValidate(o, d) ==
+  /\ HasCrossVal
+  /\ last' = <<"CrossValidate", o, d, <<Canon(objs[o].params), d>>>>
+  /\ UNCHANGED <<objs, handles>>
+
 (* the caller scribbles over a matrix it was given: nothing in the library changes; only that  *)
 (* caller-owned matrix is now "dirty" (its content is the caller's business from now on)      *)
 MutateReturned(h) == /\ handles[h].kind = "matrix"
@@ -168,7 +177,7 @@ Next ==
   \/ \E o \in Live :
        \/ \E p \in Params : SetParams(o, p)
        \/ Clone(o) \/ PickleRoundTrip(o)
-       \/ \E d \in Data : Fit(o, d) \/ FitTransform(o, d)
+       \/ \E d \in Data : Fit(o, d) \/ FitTransform(o, d) \/ CrossValidate(o, d)
        \/ \E t \in Thresholds : SetThreshold(o, t)
        \/ \E v \in ValSets : \E s \in Strategies : Calibrate(o, v, s)
        \/ \E q \in Queries : Query(o, q)
